@@ -415,7 +415,15 @@ func streamTicks() {
 	r := rng("ticks")
 	dens := []uint64{1, 2, 3, 4, 5, 6, 7, 8, 9, 11, 12, 13, 16, 24, 32, 48, 64, 96, 120, 128, 240, 480, 960, 1920, 1000, 1023, 1025, 65535, 65537}
 	gen := func() [2]uint64 {
-		switch r.Intn(6) {
+		switch r.Intn(7) {
+		case 6: // a numerator of more than 53 bits over a denominator of far fewer: a long note whose exact length matters
+			n := (r.Uint64() | 1<<63) >> uint(r.Intn(11))
+			v := uint64(1) << uint(8+r.Intn(10)) // the value, roughly, in quarter notes
+			d := n/v + uint64(r.Intn(1<<12))
+			if d == 0 {
+				d = 1
+			}
+			return [2]uint64{n, d}
 		case 0:
 			return [2]uint64{uint64(1 + r.Intn(16)), dens[r.Intn(len(dens))]}
 		case 1:
